@@ -176,6 +176,28 @@ func recordLouvain(out *core.Out, args []string, seed int64, sum *core.Summary) 
 			sum.Fail("community:Modularize:"+map[bool]string{true: "hang", false: "panic"}[o.Hung], fmt.Sprintf("%s; n=%d dir=%v gamma=%v adj=%v", o.Text, n, dir, gamma, adj), nil)
 			continue
 		}
+		// On every other run first read the hierarchy BOTTOM-UP and scramble every returned
+		// Communities() value in place (the documentation reserves only Structure()'s result:
+		// "The returned value should not be mutated"): what a level reports afterwards must not
+		// depend on what an earlier caller did with an earlier answer.
+		if r%2 == 1 {
+			var chain []community.ReducedGraph
+			for p := top; !isNilLevel(p); p = p.Expanded() {
+				chain = append(chain, p)
+			}
+			for i := len(chain) - 1; i >= 0; i-- {
+				cs := chain[i].Communities()
+				for a, b := 0, len(cs)-1; a < b; a, b = a+1, b-1 {
+					cs[a], cs[b] = cs[b], cs[a]
+				}
+				for _, c := range cs {
+					for a, b := 0, len(c)-1; a < b; a, b = a+1, b-1 {
+						c[a], c[b] = c[b], c[a]
+					}
+				}
+			}
+			sum.Count("runs_read_bottom_up_and_scrambled", 1)
+		}
 		// walk from the top level down, then reverse
 		var levels []levelRec
 		for p := top; !isNilLevel(p); p = p.Expanded() {
